@@ -34,6 +34,10 @@ class BadDraw(Exception):
     pass
 
 
+COIN_UP = math.nextafter(0.5, 0.0)
+COIN_DOWN = 0.5
+
+
 def _imports():
     if _ENV:
         return _ENV
@@ -99,7 +103,9 @@ class CoinGen:
         if k >= len(self.c[self.side]):
             raise BadDraw()
         self.used[self.side] = k + 1
-        return 0.25 if self.c[self.side][k] else 0.75
+        # the two doubles next to the plug-in's threshold: "up" is the largest double below 0.5, "down" is 0.5 itself —
+        # `rgen.random() < 0.5` with any other threshold or comparison answers differently on one of them
+        return COIN_UP if self.c[self.side][k] else COIN_DOWN
 
     def __getattr__(self, name):
         raise AssertionError(f"unexpected engine draw request {name}")
@@ -158,6 +164,8 @@ def run_real(case):
     if any(float(x) != int(x) for x in ops):
         return f"non-integer-order:{ops!r}", info
     ops = [int(x) for x in ops]
+    if ops:
+        info["extremes"] = (float(trial.ordermin[0]), float(trial.ordermax[0]), int(trial.length))
     g = trial.generated
     info.update(acc=acc, status=status, ops=ops, gen=g, draws=list(gen.log), usedB=coins.used[True], usedF=coins.used[False],
                 old_ops=[int(s.order[0]) for s in old.phasepoints])
@@ -261,6 +269,20 @@ def gen_cases(ctx):
             for xi in (r, r + Fraction(1, 1024), r - Fraction(1, 1024)):
                 if 0 < xi < 1:
                     add(top, mid, old, False, idx, xi, cb, cf, kind="boundary")
+            # the doubles around the boundary, as the exact rationals they are (the model takes any rational; `add`
+            # keeps the case only if the code's float division + int() equals the exact floor)
+            if 0 < r < 1:
+                fr = float(r)
+                for x in (fr, math.nextafter(fr, 0.0), math.nextafter(fr, 2.0)):
+                    if 0 < x < 1 and Fraction(x) != r:
+                        add(top, mid, old, False, idx, Fraction(x), cb, cf, kind="boundary-float")
+    # tiny maxlength (0, 1, 2): maxlen − 1 = 0 makes the plug-in's loop add no frame at all (BTX with an empty path);
+    # the generic model differs there (theorem shoot_generic_model_differs_maxlength_le_1) and must answer err:index
+    for ML in (0, 1, 2):
+        for old in ([0, 1, 0], [0, 1, 2, 1, 0], [0, 1, 2, 3], [0, 1, 0, 1, 0]):
+            for idx in range(1, len(old) - 1):
+                for ld in (False, True):
+                    add(3, 1, old, ld, idx, Fraction(1, 2), [0, 0, 0], [1, 1, 1], ML=ML, kind="tiny-maxlength")
     # malformed: index out of range, too short old path, ξ = 0, coins that run out, kick outside
     add(3, 1, [0, 1, 0], False, 0, Fraction(1, 2), [0], [0], kind="malformed")
     add(3, 1, [0, 1, 0], False, 2, Fraction(1, 2), [0], [0], kind="malformed")
@@ -287,6 +309,9 @@ def judge(ctx, case, line, info):
     """property predicates on the real code's answer"""
     if not line.startswith("ok "):
         return
+    if info.get("extremes") is not None and info["extremes"] != (float(min(info["ops"])), float(max(info["ops"])), len(info["ops"])):
+        ctx.fail("C01:shoot:reported-extreme-is-not-the-extreme-of-the-frames",
+                 f"returned path {info['ops']} reports (min, max, length) = {info['extremes']}", {"ext": "lshoot", "case": case})
     top, mid = case["top"], case["mid"]
     old, idx = case["old"], case["idx"]
     x = old[idx]
@@ -329,6 +354,8 @@ def run_ext(ctx):
                 # scripted coins that run out: an artefact of scripting (a generator never runs out); the generic
                 # model treats an exhausted stream as "program ended", so only latShoot is compared there
                 ref_ok = len(parts) == 2 and (parts[1] == real or real == "err:baddraw")
+                if len(parts) == 2 and c["ML"] <= 1 and real.startswith("ok ") and info.get("status") != "KOB":
+                    ref_ok = parts[1] == "err:index"
                 if len(parts) != 2 or parts[0] != real or not ref_ok:
                     ctx.disagree({"fn": "latShoot/latShootRef vs tis.shoot", "case": c}, real, m)
             judge(ctx, c, real, info)
